@@ -32,7 +32,7 @@ def norm_range(t):
         m = t[1][len(LRP):]
         a = t[2]
         if m == 'add_point':
-            return ('radd', norm_range(a[0]), ('rpoint', a[1]))
+            return ('radd',) + tuple(sorted((norm_range(a[0]), ('r', a[1], a[1])), key=repr))
         if m == 'add':
             x, y = norm_range(a[0]), norm_range(a[1])
             return ('radd',) + tuple(sorted((x, y), key=repr))
@@ -41,7 +41,7 @@ def norm_range(t):
         if m == 'shift':
             return ('rshift', norm_range(a[0]))
         if m == 'point':
-            return ('rpoint', a[0])
+            return ('r', a[0], a[0])
         if m == 'star':
             return ('r', T.I(0), None)
         if m == 'plus':
@@ -117,7 +117,7 @@ def norm(t, mgr=None):
             if m == 'opt':
                 return ('loop', norm(a[1], mgr), ('r', T.I(0), T.I(1)))
             if m == 'exp':
-                return ('loop', norm(a[1], mgr), ('rpoint', a[2]))
+                return ('loop', norm(a[1], mgr), ('r', a[2], a[2]))
             if m == 'make':
                 return norm_ast(a[1], mgr)
             if m in ('empty', 'epsilon', 'full', 'sigma_plus', 'all_chars'):
